@@ -9,6 +9,13 @@ BASE_NOTE = ('Trusted base: CPython 3.12, the harness code under /verif/mc, the 
 
 # id -> (engine, category, technique, text, note)
 CHECKS = {
+    'C01': ('E1-statespace', 'model_checking',
+            'explicit-state BFS over histories of mutating/copying operations on real symbolic forests; topology invariant on every state',
+            'Every enabled operation (all list/dict/object mutators incl. in-place operators, rebind forms, slices, '
+            'notification modes, copy operations) at every node with every value class (fresh, existing node, node of '
+            'another tree, detached node, MISSING) is executed up to the stated history depth; after every transition '
+            'the parent/path/lookup/root/alias/detached invariant is evaluated on all nodes of all roots.',
+            BASE_NOTE),
     'C02': ('E1-statespace', 'model_checking',
             'explicit-state BFS to closure over the real pg.List/pg.Dict with a lock-step plain list/dict reference model',
             'Every (reachable content, operation) pair over the list/dict API menu with all indices/slices/steps within '
